@@ -550,8 +550,12 @@ def deep_documents(rng, pool, out, limit0):
 # process (comparison with each call's own answer, state before / after, settings polled meanwhile) and reports it.
 # ---------------------------------------------------------------------------------------------------------------------
 
-def in_child(fn, timeout=900):
+CHILD_TIMEOUT = [300]      # seconds; set by run() from the tier and the depth of exploration
+
+
+def in_child(fn, timeout=None):
     """fn() in a forked child -> {"ok": what fn returned (JSON)} | {"died": description}"""
+    timeout = timeout or CHILD_TIMEOUT[0]
     import select
     import signal
     import traceback
@@ -580,7 +584,8 @@ def in_child(fn, timeout=900):
             if left <= 0 or not select.select([f], [], [], left)[0]:
                 os.kill(pid, signal.SIGKILL)
                 os.waitpid(pid, 0)
-                raise_infra("the child process running the concurrent conversions did not finish in %d s" % timeout)
+                # conversions that finish in seconds on their own and never finish side by side: an outcome, not a broken check
+                return {"died": "did not finish within %d s (the concurrent conversions hang; on the unchanged tree this phase takes well under a tenth of that)" % timeout, "returncode": None}
             b = os.read(f.fileno(), 1 << 16)
             if not b:
                 break
@@ -752,6 +757,8 @@ SKIP_MODULES = ("props", "apicheck", "cases", "docx", "common", "procstate", "sh
 
 
 def run(out, tier, seed, model_ok):
+    import common as _c
+    CHILD_TIMEOUT[0] = (300 if tier == "quick" else 3000) * max(1, int(_c.DEEPEN))
     rng = random.Random(seed * 7919 + 15)
     ndocs = 40 if tier == "quick" else 200
     pool = []
